@@ -118,6 +118,8 @@ def differential(prop, res, export, expect_path, binary, label, valgrind=False, 
                 kind = "C++ binding result differs from the Rust API"
                 if got[seed].startswith("CORRUPTED"):
                     kind = "inputs passed to resolvo::solve were modified"
+                if got[seed].startswith("STALE"):
+                    kind = "result vector not empty after a failed resolvo::solve (the header promises it is)"
                 detail = f"case_seed {seed}: rust {expect.get(seed, '')[:200]!r} vs c++ {got[seed][:200]!r}"
                 rp = write_replay(prop, seed, kind, seg_by_seed[seed], expect.get(seed), got[seed], detail)
                 res["violations"].append(dict(kind=kind, detail=detail, replay=rp))
